@@ -70,7 +70,7 @@ func (pl *PaymentLine) calculate(cur currency.Code, rates []*currency.ExchangeRa
 		} else {
 			a = *pl.Debit
 		}
-		pl.Total.MatchPrecision(a)
+		pl.Total = pl.Total.MatchPrecision(a)
 		pl.Total = pl.Total.Add(a)
 	}
 	if pl.Credit != nil {
@@ -86,7 +86,7 @@ func (pl *PaymentLine) calculate(cur currency.Code, rates []*currency.ExchangeRa
 		} else {
 			a = *pl.Credit
 		}
-		pl.Total.MatchPrecision(a)
+		pl.Total = pl.Total.MatchPrecision(a)
 		pl.Total = pl.Total.Subtract(a)
 	}
 	return nil
